@@ -1,7 +1,7 @@
 (* C14 — the calculation-process text explains the result; observing it is harmless.
    Only statements, closed by `exact lemma`, and Print Assumptions. *)
 From Coq Require Import String Ascii NArith ZArith List Bool Sorted.
-From DS Require Import Model.PCG Model.Roll Model.Str Model.Dice Model.Detail Proofs.DiceProofs Proofs.DetailProofs.
+From DS Require Import Model.PCG Model.Roll Model.Str Model.Dice Model.Detail Proofs.DiceProofs Proofs.DetailProofs Proofs.PoolText.
 Import ListNotations.
 Open Scope nat_scope.
 Open Scope string_scope.
@@ -101,6 +101,74 @@ Theorem C14_annotation_total_dc_partial rfuel fuel addLine pool points mode s re
     roll_dc next rfuel fuel addLine pool points mode s = Done ((result, all, rounds, txt), s') ->
     exists head tail, txt = (head ++ "出目" ++ show_Z result ++ "/" ++ show_Z all ++ tail)%string /\ (head = "" \/ head = "大失败 ").
 Proof. exact (annotation_total_dc_header S next rfuel fuel addLine pool points mode s result all rounds txt s'). Qed.
+(* WoD / Double Cross IN FULL (Proofs/PoolText.v): the text is exactly the rendering of the SAME rounds `rs` that the counting
+   rule of C04 speaks about — header 成功succ/all resp. [大失败 ]出目result/all, " 轮数:n" when n > 1, then every round in
+   braces, every die in order, `*` after a success, `<...>` around a die that reaches the add-line (re-rolled in the next
+   round).  Elision is all-or-nothing: no die is listed when the first pool has 15 or more dice or the running total of
+   dice ever exceeds 100 (`pool_displayed`); the header is printed in every case. *)
+Theorem C14_annotation_total_wod rfuel fuel addLine pool points threshold isGE mode s succ all rounds txt s' :
+    wod_check addLine pool points threshold = true -> points <= MaxInt64 - 1 ->
+    roll_wod next rfuel fuel addLine pool points threshold isGE mode s = Done ((succ, all, rounds, txt), s') ->
+    exists rs : list (list Z),
+      1 <= pool <= 20000 /\
+      round_chain (wod_reach addLine) (Z.to_nat pool) rs /\
+      Forall (Forall (fun x => 1 <= x <= points)) rs /\
+      succ = countZ (wod_succ threshold isGE) (concat rs) /\
+      rounds = Z.of_nat (length rs) /\
+      (Z.of_nat (length (concat rs)) < two63 -> all = Z.of_nat (length (concat rs))) /\
+      (length rs <= rfuel)%nat /\
+      txt = wod_render addLine threshold isGE pool succ all rounds rs.
+Proof. exact (roll_wod_text S next next_word rfuel fuel addLine pool points threshold isGE mode s succ all rounds txt s'). Qed.
+
+Theorem C14_annotation_total_dc rfuel fuel addLine pool points mode s result all rounds txt s' :
+    dc_check addLine pool points = true -> points <= MaxInt64 - 1 ->
+    roll_dc next rfuel fuel addLine pool points mode s = Done ((result, all, rounds, txt), s') ->
+    exists rs : list (list Z),
+      1 <= pool <= 20000 /\
+      round_chain (dc_reach addLine) (Z.to_nat pool) rs /\
+      Forall (Forall (fun x => 1 <= x <= points)) rs /\
+      rounds = Z.of_nat (length rs) /\
+      (Z.of_nat (length (concat rs)) < two63 -> all = Z.of_nat (length (concat rs))) /\
+      result = fold_left (fun a r => wrap64 (a + dc_round_max addLine r)) rs 0 /\
+      (points <= 10 -> 10 * rounds < two63 -> result = 10 * (rounds - 1) + dice_max (last rs [])) /\
+      (length rs <= rfuel)%nat /\
+      txt = dc_render addLine pool result all rounds rs.
+Proof. exact (roll_dc_text S next next_word rfuel fuel addLine pool points mode s result all rounds txt s'). Qed.
+
+(* the displayed dice recount to the result: ANY reading of the text as header + listed rounds is the actual roll — the
+   listed rounds form the legal chain, the number of starred dice conditions (successes) is the value, the totals are the
+   totals; dice are listed only when pool < 15 and all <= 100 *)
+Theorem C14_wod_text_recounts rfuel fuel addLine pool points threshold isGE mode s succ all rounds txt s' :
+    wod_check addLine pool points threshold = true -> points <= MaxInt64 - 1 ->
+    roll_wod next rfuel fuel addLine pool points threshold isGE mode s = Done ((succ, all, rounds, txt), s') ->
+    forall succ' all' rounds' rs',
+      1 <= rounds' ->
+      txt = pool_text "成功" succ' all' rounds' (Some (rounds_text (wod_die_text addLine threshold isGE) rs')) ->
+      succ' = succ /\ all' = all /\ rounds' = rounds /\
+      round_chain (wod_reach addLine) (Z.to_nat pool) rs' /\
+      Forall (Forall (fun x => 1 <= x <= points)) rs' /\
+      succ = countZ (wod_succ threshold isGE) (concat rs') /\
+      all = Z.of_nat (length (concat rs')) /\
+      rounds = Z.of_nat (length rs') /\
+      pool < 15 /\ all <= 100.
+Proof. exact (roll_wod_recount S next next_word rfuel fuel addLine pool points threshold isGE mode s succ all rounds txt s'). Qed.
+
+Theorem C14_dc_text_recounts rfuel fuel addLine pool points mode s result all rounds txt s' :
+    dc_check addLine pool points = true -> points <= MaxInt64 - 1 ->
+    roll_dc next rfuel fuel addLine pool points mode s = Done ((result, all, rounds, txt), s') ->
+    forall result' all' rounds' rs',
+      1 <= rounds' ->
+      txt = (if result' =? 1 then "大失败 " else "") ++
+            pool_text "出目" result' all' rounds' (Some (rounds_text (dc_die_text addLine) rs')) ->
+      result' = result /\ all' = all /\ rounds' = rounds /\
+      round_chain (dc_reach addLine) (Z.to_nat pool) rs' /\
+      Forall (Forall (fun x => 1 <= x <= points)) rs' /\
+      result = fold_left (fun a r => wrap64 (a + dc_round_max addLine r)) rs' 0 /\
+      (points <= 10 -> result = 10 * (rounds - 1) + dice_max (last rs' [])) /\
+      all = Z.of_nat (length (concat rs')) /\
+      rounds = Z.of_nat (length rs') /\
+      pool < 15 /\ all <= 100.
+Proof. exact (roll_dc_recount S next next_word rfuel fuel addLine pool points mode s result all rounds txt s'). Qed.
 End Source.
 
 (* the stripped text evaluates to the value of the expression: for EVERY well-formed fragment expression (integer literals,
@@ -151,6 +219,10 @@ Print Assumptions C14_annotation_total_fate.
 Print Assumptions C14_annotation_total_coc.
 Print Assumptions C14_annotation_total_wod_partial.
 Print Assumptions C14_annotation_total_dc_partial.
+Print Assumptions C14_annotation_total_wod.
+Print Assumptions C14_annotation_total_dc.
+Print Assumptions C14_wod_text_recounts.
+Print Assumptions C14_dc_text_recounts.
 Print Assumptions C14_strip_evaluates.
 Print Assumptions C14_detail_pure.
 Print Assumptions C14_detail_idempotent.
